@@ -129,9 +129,9 @@ static DOCS: [DocKind; 9] = [
 ];
 
 /// write a paragraph: one "Name: value" per pair, continuation lines indented by one blank
-const NEXT_LINE_FIELDS: [&str; 10] = ["Package-List", "Files", "Checksums-Sha1", "Checksums-Sha256", "Checksums-Sha512", "MD5Sum", "SHA1", "SHA256", "SHA512", "Binary"];
+const NEXT_LINE_FIELDS: [&str; 14] = ["Package-List", "Files", "Checksums-Sha1", "Checksums-Sha256", "Checksums-Sha512", "MD5Sum", "SHA1", "SHA256", "SHA512", "Binary", "Environment", "Sources", "Binaries", "Copyright"];
 
-fn write_para(r: &mut Rng, pairs: &[(String, String)], comments: bool, out: &mut String) {
+pub fn write_para(r: &mut Rng, pairs: &[(String, String)], comments: bool, out: &mut String) {
     for (k, v) in pairs {
         // (a copyright file must start with its Format field: no comment in front of the very first line)
         if comments && !out.is_empty() && r.chance(1, 6) {
@@ -141,7 +141,9 @@ fn write_para(r: &mut Rng, pairs: &[(String, String)], comments: bool, out: &mut
         out.push(':');
         let mut lines = v.split('\n');
         // list-valued fields are usually laid out one item per line, starting on the line after the name
-        if NEXT_LINE_FIELDS.contains(&k.as_str()) && !v.is_empty() && r.chance(1, 3) {
+        // (in a Packages stanza MD5sum/SHA1/SHA256 are single hashes, not lists)
+        let single_hash = pairs.iter().any(|(n, _)| n == "Installed-Size" || n == "Filename") && (k.starts_with("SHA") || k.starts_with("MD5"));
+        if NEXT_LINE_FIELDS.contains(&k.as_str()) && !single_hash && !v.is_empty() && r.chance(1, 3) {
             out.push('\n');
             for l in lines {
                 out.push(' ');
